@@ -20,30 +20,22 @@ Theorem C14_fact_routers :
   List.filter is_gov_kind internal_kinds = gov_internal_kinds.
 Proof. vm_compute. repeat split; reflexivity. Qed.
 
-(* ---- (1) lifecycle: the stage never moves backwards, along every history.
-   rank: absent 0 < funding 1 < voting 2 < passed/failed 3 < finalized/finalizeFailed 4.
-   Guard [nokeep]: DeleteAllFunds reached every funder record at each finalisation (complement of the trigger
-   C14.stale_fund_records, [trig_stale]).  Without it the statement is false: C14_stage_monotone_refuted. ---- *)
-Definition trig_stale (t : txop) : bool := negb (bool_decide (e_keep (t_env t) = [])).
+(* ---- (1) lifecycle: the stage never moves backwards, along EVERY history (FULL since /repo d859128).
+   rank: absent 0 < funding 1 < voting 2 < passed/failed 3 < finalized/finalizeFailed 4. ---- *)
+Theorem C14_stage_monotone : forall ts1 ts2 id,
+  (rank_of (run init ts1).1 id <= rank_of (run (run init ts1).1 ts2).1 id)%nat.
+Proof. exact stage_monotone. Qed.
+Print Assumptions C14_stage_monotone.
 
-Theorem C14_stage_monotone_partial : forall ts1 ts2,
-  Forall (fun t => trig_stale t = false) (ts1 ++ ts2) ->
-  forall id, (rank_of (run init ts1).1 id <= rank_of (run (run init ts1).1 ts2).1 id)%nat.
-Proof.
-  intros ts1 ts2 H. apply stage_monotone. eapply Forall_impl; [exact H|].
-  intros t Ht. unfold trig_stale in Ht. apply negb_false_iff, bool_decide_eq_true in Ht. exact Ht.
-Qed.
-Print Assumptions C14_stage_monotone_partial.
-
-Theorem C14_stage_monotone_from : forall s ts, Inv s -> Forall nokeep ts ->
+Theorem C14_stage_monotone_from : forall s ts, Inv s ->
   Inv (run s ts).1 /\ forall id, (rank_of s id <= rank_of (run s ts).1 id)%nat.
 Proof. exact stage_monotone_from. Qed.
 Print Assumptions C14_stage_monotone_from.
 
 (* witness environment: one validator (account 10, power 100) *)
 Definition wopts : opts := mkOpts 1 10 5 51 (mkDist 180000 180000 100000 180000 180000) (mkDist 180000 180000 100000 180000 180000).
-Definition wenv (keep : list (N * N)) : env := mkEnv wopts wopts wopts [(10%N, 100)] [10%N] 13%N 14%N [] keep.
-Definition wtx (o : op) (keep : list (N * N)) : txop := mkTx o (wenv keep) 0%N 0.
+Definition wenv : env := mkEnv wopts wopts wopts [(10%N, 100)] [10%N] 13%N 14%N [].
+Definition wtx (o : op) (_ : list (N * N)) : txop := mkTx o wenv 0%N 0.
 
 (* an honest life of a configuration proposal up to its automatic finalisation *)
 Definition w_life (keep : list (N * N)) : list txop :=
@@ -52,20 +44,20 @@ Definition w_life (keep : list (N * N)) : list txop :=
    wtx (OBegin 2) []; wtx (OVote 0%N 10%N OpYes) []; wtx OEnd [];
    wtx (OBegin 3) []; wtx OEnd keep].
 
-(* the full statement is false of the faithful model: when a funder record survives the distribution (two
-   finalisations in one block, or a record written in the same block), a zero withdrawal after the funding
-   deadline copies the finalised proposal back into the failed store.  Known finding C14.stale_fund_records. *)
-Theorem C14_stage_monotone_refuted : exists ts1 ts2 id,
-  existsb trig_stale (ts1 ++ ts2) = true /\
-  ~ (rank_of (run init ts1).1 id <= rank_of (run (run init ts1).1 ts2).1 id)%nat.
-Proof.
-  exists (w_life [(0%N, 2%N)]), [wtx (OBegin 6) []; wtx (OWithdraw 0%N 2%N 0 2%N) []], 0%N.
-  vm_compute. split; [reflexivity|]. lia.
-Qed.
+(* the former witness of the finding C14.stale_fund_records (fixed by /repo d859128), now an example of the repaired
+   behaviour: the finalisation leaves no funder record, a later withdrawal attempt on the finalised proposal (zero or
+   positive amount) is refused and the proposal stays in its last stage *)
+Example C14_stale_records_repaired :
+  let s := (run init (w_life [])).1 in
+  (fun p => (p_store p, p_indiv p, p_total p)) <$> (g_props s !! 0%N) = Some (SFinalized, [], 0) /\
+  let s6 := (step s (wtx (OBegin 6) [])).1.1 in
+  (step s6 (wtx (OWithdraw 0%N 2%N 0 2%N) [])).1.2 = false /\
+  (step s6 (wtx (OWithdraw 0%N 2%N 5 2%N) [])).1.2 = false /\
+  rank_of (run s6 [wtx (OWithdraw 0%N 2%N 0 2%N) []; wtx (OWithdraw 0%N 2%N 5 2%N) []]).1 0%N = 4%nat.
+Proof. vm_compute. repeat split; reflexivity. Qed.
 
 (* non-vacuity: the honest life satisfies the guard and reaches the last stage, applying the update once *)
 Example C14_life_nonvacuous :
-  forallb (fun t => negb (trig_stale t)) (w_life []) = true /\
   rank_of (run init (w_life [])).1 0%N = 4%nat /\
   (run init (w_life [])).2 = [EvContrib 0 1 5; EvContrib 0 2 5; EvConfig 0; EvDistrib 0 9 10] /\
   g_applied (run init (w_life [])).1 = [0%N] /\ g_anom (run init (w_life [])).1 = false.
@@ -119,7 +111,7 @@ Theorem C14_pass_fail_per_tally : forall s e id v o s' ev p p',
   h_vote s e id v o = Some (s', ev) -> g_props s !! id = Some p -> g_props s' !! id = Some p' ->
   p_store p = SActive /\ p_status p = StVoting /\ g_h s <= p_vdl p /\
   vote_update v o (p_votes p) = Some (p_votes p') /\
-  match tally (p_votes p') (o_pass (opts_of e (p_type p))) with
+  match tally (p_votes p') (p_pass p) with
   | RPassed => p_store p' = SPassed /\ p_outcome p' = OCompletedYes
   | RFailed => p_store p' = SFailed /\ p_outcome p' = OCompletedNo
   | RTBD => p_store p' = SActive /\ p_outcome p' = p_outcome p
@@ -131,45 +123,47 @@ Theorem C14_vote_keeps_snapshot_powers : forall v o vs vs', vote_update v o vs =
   map (fun x => (v_val x, v_power x)) vs' = map (fun x => (v_val x, v_power x)) vs.
 Proof. exact vote_update_powers. Qed.
 
-(* ---- (5) a configuration change is emitted only when a configuration proposal whose recorded votes pass (under the
-   proposal's own percentage) is finalised, and at most once: afterwards finalisation is a no-op without events ---- *)
+(* ---- (5) a configuration change is applied only for a passed proposal, and at most once.
+   [sane_op]: the option set in force when a proposal is created has initial funding >= 0 and a pass percentage in
+   (0,100] — ValidateProposal demands >= 1 and 51..80 at genesis and at every update.
+   FULL (since /repo c39c303 votes are tallied with the proposal's own percentage, like the finalisation): along every
+   history, whatever the next operation is (public finalise or the EndBlock queue), a configuration change is
+   applied only for a configuration proposal that, in the state in which its finalisation runs, is in the passed
+   store with outcome completedYes and votes passing under its own percentage. ---- *)
+Theorem C14_config_only_for_passed : forall ts t id, Forall sane_op ts -> sane_op t ->
+  EvConfig id ∈ (step (run init ts).1 t).2 ->
+  exists st p, Good st /\ g_props st !! id = Some p /\ p_type p = TConfig /\ p_store p = SPassed /\
+    p_outcome p = OCompletedYes /\ tally (p_votes p) (p_pass p) = RPassed.
+Proof. exact config_only_for_passed. Qed.
+Print Assumptions C14_config_only_for_passed.
+
 Theorem C14_config_only_when_votes_pass : forall s e id s' ev id', h_finalize s e id = Some (s', ev) -> EvConfig id' ∈ ev ->
   id' = id /\ exists p, g_props s !! id = Some p /\ p_type p = TConfig /\
     (p_store p = SPassed \/ p_store p = SFailed) /\ p_extra p < 8 /\
-    tally (p_votes p) (p_pass p) = RPassed /\ (p_store p = SPassed -> rank_of s' id = 4%nat).
+    tally (p_votes p) (p_pass p) = RPassed /\ p_votes p <> [] /\ (p_store p = SPassed -> rank_of s' id = 4%nat).
 Proof. exact config_event_sound. Qed.
 Print Assumptions C14_config_only_when_votes_pass.
 
-(* "only for a PASSED proposal": holds unless the proposal is in the failed store with votes that pass under its own
-   percentage (complement of [trig_failed_but_passing]) ... *)
-Theorem C14_config_only_for_passed_partial : forall s e id s' ev id' p,
-  h_finalize s e id = Some (s', ev) -> EvConfig id' ∈ ev -> g_props s !! id = Some p ->
-  trig_failed_but_passing p = false ->
-  id' = id /\ p_store p = SPassed /\ p_outcome p = p_outcome p /\ rank_of s' id = 4%nat.
-Proof. exact config_only_passed_partial. Qed.
-Print Assumptions C14_config_only_for_passed_partial.
-
-(* ... and the full statement is false of the faithful model: the vote handler decides pass / fail with the CURRENT
-   option percentage, finalisation recomputes the tally with the proposal's OWN percentage.  Here the option was
-   raised from 51 to 80 while proposal 0 was in its voting stage: votes yes(100) yes(100) no(100) make it FAILED
-   (outcome completedNo, failed store); the next block's finalisation finds that 66% >= 51%, applies its
-   configuration update, pays the PASSED distribution and leaves the id in the failed AND the finalized store.
-   Known finding C14.pass_percentage_drift. *)
+(* the former witness of the finding C14.pass_percentage_drift (fixed by /repo c39c303), now an example of the
+   repaired behaviour: the option is raised from 51 to 80 during the vote, the votes yes(100) yes(100) are tallied
+   with the proposal's own 51%: the proposal PASSES with the second vote, is finalised from the passed store, its
+   update is applied once and it sits in one store only *)
 Definition wopts80 : opts := mkOpts 1 10 5 80 (mkDist 180000 180000 100000 180000 180000) (mkDist 180000 180000 100000 180000 180000).
-Definition wenv3 (o : opts) : env := mkEnv o o o [(10%N, 100); (11%N, 100); (12%N, 100)] [10%N; 11%N; 12%N] 13%N 14%N [] [].
+Definition wenv3 (o : opts) : env := mkEnv o o o [(10%N, 100); (11%N, 100); (12%N, 100)] [10%N; 11%N; 12%N] 13%N 14%N [].
 Definition wtx3 (o : opts) (x : op) : txop := mkTx x (wenv3 o) 0%N 0.
 Definition w_drift : list txop :=
   [wtx3 wopts (OAdjust 1%N 100); wtx3 wopts (OAdjust 2%N 100);
    wtx3 wopts (OBegin 1); wtx3 wopts (OCreate 0%N TConfig 1%N 5 5 10 10 51 true); wtx3 wopts (OFund 0%N 2%N 5); wtx3 wopts OEnd;
    wtx3 wopts80 (OBegin 2); wtx3 wopts80 (OVote 0%N 10%N OpYes); wtx3 wopts80 (OVote 0%N 11%N OpYes);
    wtx3 wopts80 (OVote 0%N 12%N OpNo); wtx3 wopts80 OEnd; wtx3 wopts80 (OBegin 3)].
-Theorem C14_config_only_for_passed_refuted : exists ts t id,
-  let s := (run init ts).1 in
-  (fun p => (trig_failed_but_passing p, p_store p, p_outcome p)) <$> (g_props s !! id) = Some (true, SFailed, OCompletedNo) /\
-  (step s t).2 = [EvConfig id; EvDistrib id 8 10] /\
-  (fun p => (p_store p, p_outcome p, p_extra p)) <$> (g_props (step s t).1.1 !! id) = Some (SFailed, OCompletedNo, 8) /\
-  g_applied (step s t).1.1 = [id].
-Proof. exists w_drift, (wtx3 wopts80 OEnd), 0%N. vm_compute. repeat split; reflexivity. Qed.
+Example C14_pass_drift_repaired :
+  let s := (run init w_drift).1 in
+  (fun p => (p_store p, p_outcome p)) <$> (g_props s !! 0%N) = Some (SPassed, OCompletedYes) /\
+  (step s (wtx3 wopts80 OEnd)).2 = [EvConfig 0; EvDistrib 0 8 10] /\
+  (fun p => (p_store p, p_outcome p, p_extra p)) <$> (g_props (step s (wtx3 wopts80 OEnd)).1.1 !! 0%N)
+     = Some (SFinalized, OCompletedYes, 0) /\
+  g_applied (step s (wtx3 wopts80 OEnd)).1.1 = [0%N].
+Proof. vm_compute. repeat split; reflexivity. Qed.
 
 Theorem C14_config_at_most_once : forall s e id p, g_props s !! id = Some p ->
   p_store p = SFinalized \/ p_store p = SFinFailed \/ 8 <= p_extra p -> h_finalize s e id = Some (s, []).
@@ -178,7 +172,7 @@ Proof. exact finalize_terminal_noop. Qed.
 (* ---- (6) funds ---- *)
 Theorem C14_refund_exact : forall s id f amt ben s' ev p,
   h_withdraw s id f amt ben = Some (s', ev) -> g_props s !! id = Some p ->
-  ev = [EvRefund id f ben amt] /\
+  ev = [EvRefund id f ben amt] /\ 0 < amt /\ (p_store p = SActive \/ p_store p = SFailed) /\
   exists p' cur, g_props s' !! id = Some p' /\ refundable (p_outcome p') = true /\
     alookup f (p_indiv p) = Some cur /\ amt <= cur /\ amt <= p_total p /\
     p_total p' = p_total p - amt /\ p_indiv p' = aupd f (- amt) (p_indiv p) /\
@@ -186,53 +180,37 @@ Theorem C14_refund_exact : forall s id f amt ben s' ev p,
 Proof. exact withdraw_refund_exact. Qed.
 Print Assumptions C14_refund_exact.
 
-(* "returned in full": a funder of a cancelled / goal-missed proposal can withdraw their whole record, provided the
-   recorded total still covers it.  Without that guard the statement is false of the faithful model: anybody can
-   contribute a NEGATIVE amount (Validate checks the currency, not the sign; CheckTx 0, DeliverTx 0), which pays
-   the sender out of the proposal's pool and leaves the honest funders' records uncovered.
-   Known finding C14.negative_fund_amount (trigger [trig_negative_amount]). *)
-Theorem C14_refund_in_full_partial : forall s id f ben p cur,
-  g_props s !! id = Some p -> refundable (p_outcome p) = true -> funded_visible (g_blk s) p f = true ->
-  alookup f (p_indiv p) = Some cur -> cur <= p_total p ->
-  exists s', h_withdraw s id f cur ben = Some (s', [EvRefund id f ben cur]).
-Proof. exact refund_available. Qed.
-Print Assumptions C14_refund_in_full_partial.
-
-(* history level: along every history of non-negative contributions ([nonneg_op], complement of the trigger
-   C14.negative_fund_amount for contributions) in which every distribution deleted every funder record ([nokeep],
-   complement of C14.stale_fund_records), the recorded total of every proposal is the sum of its non-negative
-   funder records; hence a funder of a cancelled / goal-missed proposal can always withdraw the whole record *)
-Theorem C14_refund_in_full_history_partial : forall ts id f ben p cur,
-  Forall nokeep ts -> Forall nonneg_op ts ->
-  let s := (run init ts).1 in
-  g_props s !! id = Some p -> refundable (p_outcome p) = true -> funded_visible (g_blk s) p f = true ->
-  alookup f (p_indiv p) = Some cur ->
-  0 <= cur /\ exists s', h_withdraw s id f cur ben = Some (s', [EvRefund id f ben cur]).
-Proof. exact refund_in_full. Qed.
-Print Assumptions C14_refund_in_full_history_partial.
-
-Theorem C14_funds_invariant_partial : forall ts, Forall nokeep ts -> Forall nonneg_op ts ->
+(* "returned in full", FULL (since /repo 65cdcf3 / 7960770 / d859128): along every history the recorded total of every
+   proposal is the sum of its non-negative funder records, and a funder of a cancelled / goal-missed proposal whose
+   record is committed and positive can withdraw the whole record *)
+Theorem C14_funds_invariant : forall ts, Forall sane_op ts ->
   forall id p, g_props (run init ts).1 !! id = Some p ->
   Forall (fun kv => 0 <= kv.2) (p_indiv p) /\ p_total p = asum (p_indiv p).
-Proof.
-  intros ts Hk Hn id p H. refine (run_funds ts init Hk Hn _ id p H).
-  intros i q Hq. unfold init in Hq. simpl in Hq. rewrite lookup_empty in Hq. discriminate.
-Qed.
-Print Assumptions C14_funds_invariant_partial.
+Proof. intros ts Hn id p H. exact (run_funds ts init Hn FundsInv_init id p H). Qed.
+Print Assumptions C14_funds_invariant.
 
-Theorem C14_refund_in_full_refuted : exists ts,
-  existsb trig_negative_amount ts = true /\
+Theorem C14_refund_in_full : forall ts id f ben p cur,
+  Forall sane_op ts ->
   let s := (run init ts).1 in
-  (* proposal 0 is cancelled, funder 1 has a committed record of 5, yet cannot withdraw it; account 2 was paid 5 *)
-  (fun p => (refundable (p_outcome p), funded_visible (g_blk s) p 1%N, alookup 1%N (p_indiv p), p_total p))
-     <$> (g_props s !! 0%N) = Some (true, true, Some 5, 0) /\
-  h_withdraw s 0%N 1%N 5 1%N = None /\ bal s 2%N = 105.
-Proof.
-  exists [wtx (OAdjust 1%N 100) []; wtx (OAdjust 2%N 100) [];
-          wtx (OBegin 1) []; wtx (OCreate 0%N TGeneral 1%N 5 5 10 10 51 true) []; wtx OEnd [];
-          wtx (OBegin 2) []; wtx (OFund 0%N 2%N (-5)) []; wtx (OCancel 0%N 1%N) []; wtx OEnd []; wtx (OBegin 3) []].
-  vm_compute. repeat split; reflexivity.
-Qed.
+  g_props s !! id = Some p -> refundable (p_outcome p) = true -> funded_visible (g_blk s) p f = true ->
+  alookup f (p_indiv p) = Some cur -> 0 < cur ->
+  exists s', h_withdraw s id f cur ben = Some (s', [EvRefund id f ben cur]).
+Proof. exact refund_in_full. Qed.
+Print Assumptions C14_refund_in_full.
+
+(* the former witness of the finding C14.negative_fund_amount (fixed by /repo 65cdcf3), now an example of the repaired
+   behaviour: the negative contribution is refused, nobody is paid, and after the cancellation the proposer
+   withdraws the whole contribution *)
+Example C14_negative_fund_repaired :
+  let ts := [wtx (OAdjust 1%N 100) []; wtx (OAdjust 2%N 100) [];
+             wtx (OBegin 1) []; wtx (OCreate 0%N TGeneral 1%N 5 5 10 10 51 true) []; wtx OEnd []; wtx (OBegin 2) []] in
+  let s := (run init ts).1 in
+  (step s (wtx (OFund 0%N 2%N (-5)) [])).1.2 = false /\ (step s (wtx (OFund 0%N 2%N 0) [])).1.2 = false /\
+  let s3 := (run s [wtx (OFund 0%N 2%N (-5)) []; wtx (OCancel 0%N 1%N) []; wtx OEnd []; wtx (OBegin 3) []]).1 in
+  bal s3 2%N = 100 /\ (step s3 (wtx (OWithdraw 0%N 1%N (-1) 1%N) [])).1.2 = false /\
+  (step s3 (wtx (OWithdraw 0%N 1%N 5 1%N) [])).1.2 = true /\
+  bal (step s3 (wtx (OWithdraw 0%N 1%N 5 1%N) [])).1.1 1%N = 100.
+Proof. vm_compute. repeat split; reflexivity. Qed.
 
 Theorem C14_distribution_within_total : forall s e id p d s' paid bad,
   distribute s e id p d = (s', paid, bad) -> e_vals e <> [] -> 0 <= p_total p -> 0 <= d_burn d ->
